@@ -142,6 +142,7 @@ type leafCtx struct {
 	caps       map[string]bool   // slices modelled with a capacity
 	fileDeps   map[string]bool   // Gen modules of the leaves called
 	aliasOf    map[string]string // local name -> the slice parameter it is another name for
+	madeHere   map[string]bool   // byte buffers created by make in this function (capacity = length)
 }
 
 func (c *leafCtx) fail(format string, a ...any) {
